@@ -196,6 +196,12 @@ class Domain:
                 return UNK
             r = z3.Or(z3.And(oa.is_none, ob.is_none), z3.And(z3.Not(oa.is_none), z3.Not(ob.is_none), inner))
             return r if op == '==' else z3.Not(r)
+        if op in ('<', '<=', '>', '>='):
+            # ordering an optional value: Python would raise on None; on the paths that matter the value is present
+            if isinstance(a, Opt) and isnum(a.val):
+                a = a.val
+            if isinstance(b, Opt) and isnum(b.val):
+                b = b.val
         if isbool(a):
             a = z3.If(a, z3.IntVal(1), z3.IntVal(0))
         if isbool(b):
@@ -252,6 +258,8 @@ class Domain:
 
     def contains(self, a, b, st):
         """a in b"""
+        if isinstance(b, Opt):
+            b = b.val
         if isinstance(a, StrV) and isinstance(b, StrV):
             # substring test against the interned literals a symbolic string may denote
             if z3.is_int_value(a.id) and self.known_str(b):
@@ -922,15 +930,27 @@ class ParamsMixin:
         args = [a for a in args if not (isinstance(a, Ref) and a.cls == 'ParameterList')]
         key = args[0] if args else None
         if 'new_value' in kw or len(args) > 1:
-            if isinstance(key, StrV) and z3.is_int_value(key.id):
-                k = ('params', INTERN_REV[key.id.as_long()])
-                if k in st.heap:
-                    st.heap[k] = self.fresh_like('P', st.heap[k], st)
+            nv = kw.get('new_value', args[1] if len(args) > 1 else NONE)
+            isn = self.is_same(nv, NONE, st)
+            if isn is not None and z3.is_true(z3.simplify(isn)):
+                pass            # new_value=None is a read
             else:
+                def updated(old):
+                    # the stored value after an update is the (non-None) new value
+                    if isinstance(old, Opt):
+                        return Opt(z3.BoolVal(False), self.fresh_like('P', old.val, st))
+                    return self.fresh_like('P', old, st)
                 for k in list(st.heap):
-                    if k[0] == 'params':
+                    if k[0] != 'params':
+                        continue
+                    if isinstance(key, StrV) and z3.is_int_value(key.id):
+                        if k[1] == INTERN_REV[key.id.as_long()]:
+                            st.heap[k] = updated(st.heap[k])
+                    elif isinstance(key, StrV):
+                        st.heap[k] = merge_val(key.id == intern(k[1]), updated(st.heap[k]), st.heap[k])
+                    else:
                         st.heap[k] = self.fresh_like('P', st.heap[k], st)
-            return UNK
+                return UNK
         if isinstance(key, StrV) and z3.is_int_value(key.id):
             k = ('params', INTERN_REV[key.id.as_long()])
             if k in st.heap:
